@@ -141,10 +141,17 @@ theorem recreate_own (p : Policy) (skip : List String) (ok : Nat → Prop) (t : 
   recreate_spec p skip ok t k (fun i hi => h i (sharedMut_sub p t i hi)) hf
 
 theorem stripMeta_spec (p : Policy) (mkeys : List String) (ok : Nat → Prop) (t : T) (k : Nat)
-    (hs : ∀ i ∈ sharedMut p t, ok i) (hf : Fresh ok k) (hne : isEmptyNode t = false) :
+    (hs : ∀ i ∈ stripShared p t, ok i) (hf : Fresh ok k) :
     Own p ok (stripMeta p mkeys t k).val ∧ k ≤ (stripMeta p mkeys t k).next := by
-  simp only [stripMeta, hne]
-  exact recreate_spec p mkeys ok t k hs hf
+  unfold stripMeta
+  unfold stripShared at hs
+  split
+  · rename_i h
+    simp only [h, ↓reduceIte] at hs
+    exact ⟨hs, Nat.le_refl _⟩
+  · rename_i h
+    simp only [h] at hs
+    exact recreate_spec p mkeys ok t k hs hf
 
 /-! ### the worst-case mutators -/
 
